@@ -11,7 +11,9 @@ import time
 VERIF = os.path.dirname(os.path.dirname(os.path.abspath(__file__)))
 REPO = os.environ.get('VERIF_REPO', '/repo')
 SPECS = os.path.join(VERIF, 'specs')
-EVIDENCE = os.path.join(VERIF, 'evidence')
+# (VERIF_EVIDENCE_DIR: tools/eval_seeded.py runs the checks against a MUTATED package
+#  and must not overwrite the evidence of the real tree)
+EVIDENCE = os.environ.get('VERIF_EVIDENCE_DIR') or os.path.join(VERIF, 'evidence')
 REPLAYS = os.path.join(EVIDENCE, 'replays')
 FINDINGS_FILE = os.path.join(VERIF, 'known_findings.json')
 
